@@ -245,9 +245,15 @@ class Problem(Conversions):
         all_solutions = kwargs.pop("all_solutions", False)
         qubo = self.to_qubo(*args, **kwargs)
         sol = qubo.solve_bruteforce(all_solutions)
+
+        # a variable that the QUBO does not depend on is not in the bruteforce
+        # solution; it can take either value, so give it the value 0.
+        def complete(x):
+            return {i: x.get(i, 0) for i in range(self.num_binary_variables)}
+
         if all_solutions:
-            return [self.convert_solution(x) for x in sol]
-        return self.convert_solution(sol)
+            return [self.convert_solution(complete(x)) for x in sol]
+        return self.convert_solution(complete(sol))
 
     def to_pubo(self, *args, **kwargs):
         """to_pubo.
